@@ -47,3 +47,48 @@ Theorem C12_done_leaves_nothing : forall s, reach s -> lp s = LDone ->
   trun s = false /\ wk s <> WRun /\ tm s <> TArmed.
 Proof. exact done_leaves_nothing. Qed.
 Print Assumptions C12_done_leaves_nothing.
+
+(* the publisher / subscription / reaper lifetime protocol, one step per
+   channel operation (PubTerm.v) *)
+From KC Require Import PubTerm PubTermProps.
+
+(* once the publisher has left its drain loop (a fortiori once it is done),
+   every subscription goroutine and every reaper it started has returned *)
+Theorem C12_publisher_done_means_all_finished : forall p,
+  treach p -> receiving (t_mode p) = false -> all_finished p = true.
+Proof. exact done_means_all_finished. Qed.
+Print Assumptions C12_publisher_done_means_all_finished.
+
+(* no reaper is ever blocked on the unsubscribe channel with nobody left to receive *)
+Theorem C12_no_stuck_reaper : forall p, treach p -> ~ stuck_reaper p.
+Proof. exact no_stuck_reaper. Qed.
+Print Assumptions C12_no_stuck_reaper.
+
+(* from EVERY reachable state the library's own steps — no user of any
+   subscription reads, closes or does anything — take the publisher to done
+   once its parent stops, leaving nothing behind *)
+Theorem C12_shutdown_completes_without_users : forall p, treach p ->
+  exists l p', Forall (fun a => library_act a = true) l /\ trun false p l = Some p' /\ t_mode p' = MDone /\
+               all_finished p' = true /\ ~ stuck_reaper p'.
+Proof. exact shutdown_completes_without_users. Qed.
+Print Assumptions C12_shutdown_completes_without_users.
+
+(* the states the correspondence compares (user call, then settle) are
+   reachable and quiescent, and after Stop the model reports: publisher done,
+   zero subscriptions owning a goroutine *)
+Theorem C12_compared_states_reachable_quiescent : forall p o, treach p ->
+  treach (unext p o) /\ forall a, internal_act a = true -> tstep false (unext p o) a = None.
+Proof. exact unext_reachable_quiescent. Qed.
+Print Assumptions C12_compared_states_reachable_quiescent.
+
+Theorem C12_stop_leaves_nothing : forall p, treach p ->
+  let q := unext p UStop in pub_done q = true /\ all_finished q = true /\ length (filter sub_live (t_subs q)) = 0.
+Proof. exact stop_leaves_nothing. Qed.
+Print Assumptions C12_stop_leaves_nothing.
+
+(* the protocol is tight: deleting a table entry when a send to it fails (a
+   plausible clean-up) lets the publisher finish while a reaper blocks for ever *)
+Theorem C12_prune_on_failed_send_refuted :
+  exists p, trun true tinit prune_trace = Some p /\ t_mode p = MDone /\ stuck_reaper p /\ all_finished p = false.
+Proof. exact prune_on_failed_send_refuted. Qed.
+Print Assumptions C12_prune_on_failed_send_refuted.
